@@ -18,6 +18,9 @@ type ptrLeaf struct{ id int }
 
 func (e *ptrLeaf) Error() string { return fmt.Sprintf("L%d", e.id) }
 
+// an error that is also a fmt.Stringer (like *exec.ExitError): still an error first
+func (e *ptrLeaf) String() string { return fmt.Sprintf("stringer-of-L%d", e.id) }
+
 type tyErr0 struct{ id int }
 type tyErr1 struct{ id int }
 
@@ -162,6 +165,14 @@ func (env *c12env) eval(s *Sexp) error {
 		return ers.Join(env.children(args)...)
 	case "X":
 		return ers.Wrap(env.eval(args[1]), fmt.Sprintf("L%d", args[0].Int()))
+	case "V":
+		// the operand is looked at before it is used: observations must not change it
+		e := env.eval(args[0])
+		_ = ers.Unwind(e)
+		_ = errors.Is(e, errUnrelated)
+		var t0 *tyErr0
+		_ = errors.As(e, &t0)
+		return e
 	case "P":
 		inner := env.eval(args[0])
 		if inner == nil {
@@ -213,6 +224,18 @@ func c12case(s *Sexp) string {
 		if r == nil {
 			return "nil"
 		}
+		// everything is observed twice: Is / As / Unwind / Len are read-only
+		first := c12observe(env, s, r)
+		if second := c12observe(env, s, r); second != first {
+			return "UNSTABLE-OBS " + first + " THEN " + second
+		}
+		return first
+	}
+	return c12rest(env, s)
+}
+
+func c12observe(env *c12env, s *Sexp, r error) string {
+	{
 		as := make([]string, 4)
 		var t0 *tyErr0
 		var t1 *tyErr1
@@ -248,6 +271,11 @@ func c12case(s *Sexp) string {
 		}
 		return fmt.Sprintf("res=%s is=%s as=%s unwind=[%s] len=%s", env.label(r),
 			env.isBits(r, s.List[1].List), strings.Join(as, ","), strings.Join(unw, ","), ln)
+	}
+}
+
+func c12rest(env *c12env, s *Sexp) string {
+	switch s.Head() {
 	case "colseq":
 		// a sequence of calls on one Collector; every Resolve / Iterator / Len must show exactly the
 		// constituents added so far, whatever was observed before
